@@ -331,6 +331,8 @@ def run(prog, chk):
     chk.rule('R14.5', 'assignment is right-recursive as in the grammar; member modifiers are accepted in any order')
     chk.rule('R14.7', 'multi-declarators keep their source order: the parked declarators are flushed into the same list right after the first one was appended')
     _multi_declarators_in_order(prog, chk)
+    chk.rule('R14.8', 'statement dispatch: [final] [@annotation] type name is a declaration (final passed on), every other start goes to its own production')
+    _statement_dispatch_table(prog, chk)
     if 'assignmentExpression' in rules and re.search(r'\[\s*"="\s*assignmentExpression\s*\]', rules['assignmentExpression']):
         pe = prog.fn('Parser::parseExpression')
         targets = [t for n, fs in prog.callees(pe) for t in fs if t.body and t.name.startswith('bloch::compiler::Parser::')]
@@ -634,3 +636,74 @@ def _multi_declarators_in_order(prog, chk):
                        'the declarators parked by a multi-declaration are moved into %s right after the statement they were split from was appended to it (flushing first, or into another '
                        'list, reorders `qubit a, b, c;` into b, c, a)' % dest, key='flush-after-append:%s:%s' % (f.short, dest[:30]))
     chk.count('sites that flush parked declarators', n, 2)
+
+
+STATEMENT_STARTS = [
+    ('LBrace Identifier', 'parseBlock', '{ …'),
+    ('Final At Identifier Bit Identifier Equals IntegerLiteral Semicolon', ('parseVariableDeclaration', True), 'final @tracked bit r = 1b;'),
+    ('Final At Identifier Identifier Identifier Semicolon', ('parseVariableDeclaration', True), 'final @tracked Cell c;'),
+    ('At Identifier Qubit Identifier Semicolon', ('parseVariableDeclaration', False), '@tracked qubit q;'),
+    ('Final Int Identifier Equals IntegerLiteral Semicolon', ('parseVariableDeclaration', True), 'final int n = 1;'),
+    ('Int Identifier Semicolon', ('parseVariableDeclaration', False), 'int n;'),
+    ('Final Identifier Identifier Equals New', ('parseVariableDeclaration', True), 'final Cell c = new …'),
+    ('Identifier Less Identifier Greater Identifier Equals New', ('parseVariableDeclaration', False), 'Box<Cell> b = new …'),
+    ('Final Identifier Equals IntegerLiteral Semicolon', 'error', 'final n = 1;   — no type after final'),
+    ('Identifier Equals IntegerLiteral Semicolon', 'parseAssignment', 'n = 1;'),
+    ('Identifier LParen RParen Semicolon', 'parseExpression', 'f();'),
+    ('Return Semicolon', 'parseReturn', 'return;'),
+    ('If LParen', 'parseIf', 'if (…'),
+    ('For LParen', 'parseFor', 'for (…'),
+    ('While LParen', 'parseWhile', 'while (…'),
+    ('Echo LParen', 'parseEcho', 'echo(…'),
+    ('Reset Identifier Semicolon', 'parseReset', 'reset q;'),
+    ('Measure Identifier Semicolon', 'parseMeasure', 'measure q;'),
+    ('Destroy Identifier Semicolon', 'parseDestroy', 'destroy o;'),
+]
+
+
+def _statement_dispatch_table(prog, chk):
+    """R14.8 — which production a statement start is handed to, by abstract evaluation of parseStatement on token sequences (the real
+    match/check/isTypeAhead run on the abstract token vector; the sub-parsers are replaced by markers).  `[final] [@annotation] type
+    name …` is a declaration with the final flag passed on, `final` without a type is an error, an assignment, a call and every
+    statement keyword go to their own production."""
+    from ..kabs import Interp, Obj, Unsupported, OutOfRange, Thrown, Ret
+    ps = prog.fn('Parser::parseStatement')
+    subs = {f.short for f in prog.methods_of('bloch::compiler::Parser') if f.short.startswith('parse') and f.short != 'parseStatement'}
+
+    class Picked(Exception):
+        def __init__(self, what):
+            self.what = what
+    bad = []
+    n = 0
+    for toks, want, what in STATEMENT_STARTS:
+        names = toks.split()
+        n += 1
+        this = Obj(m_tokens=[Obj(type=TT + t, value='', line=1, column=1) for t in names] + [Obj(type=TT + 'Eof', value='', line=1, column=1)] * 3, m_current=0, m_extraStatements=[])
+        models = {}
+
+        def mk(nm):
+            def model(it, e, env):
+                a = SX.real_args(e)
+                raise Picked((nm, bool(it.expr(a[0], env))) if nm == 'parseVariableDeclaration' and a else nm)
+            return model
+        for nm in subs:
+            models[nm] = mk(nm)
+
+        def rep(it, e, env):
+            raise Picked('error')
+        models['reportError'] = rep
+        try:
+            Interp(prog, models, max_steps=20000).call_fn_env(ps, [], {'this': this})
+            got = 'returned without choosing a production'
+        except Picked as p_:
+            got = p_.what
+        except Thrown:
+            got = 'error'
+        except OutOfRange as ex:
+            got = 'reads past the tokens: %s' % ex
+        except Unsupported as ex:
+            raise AnalysisBroken('abstract evaluation of parseStatement on `%s`: %s' % (what, ex))
+        if got != want:
+            bad.append('`%s` goes to %s (grammar: %s)' % (what, got, want))
+    chk.ob('R14.8', ps, ps.ln, not bad, 'statement starts are handed to the production the grammar gives them (%d token sequences); wrong: %s' % (n, bad[:4]), key='statement-dispatch')
+    chk.count('statement-start sequences evaluated', n, 15)
